@@ -258,6 +258,35 @@ def gen_all_methods_buffer(rng, mods):
     return b.text, probes
 
 
+def gen_many_files_buffer(rng, files):
+    """the buffer (a project module, buf.py) defines a function that MANY other project files
+    call or mention: the project-wide name searches behind get_references / rename /
+    Project.search and behind the cross-module dynamic-parameter search work under per-query
+    limits on opened and parsed files (30 parsed files, 6 for dynamic parameters) - budgets that
+    must not depend on what earlier queries of the process left in any cache"""
+    n = rng.choice([8, 9, 12, 33, 36])
+    exprs = ['1', '"s"', '1.5', 'b"x"', 'Marker%d()']
+    for k in range(n):
+        e = exprs[k % len(exprs)]
+        body = 'from buf import target\n\n\nclass Marker%d:\n    mark_%d = %d\n\n\nres_%d = target(%s)\n' % (
+            k, k, k, k, (e % k) if '%d' in e else e)
+        files['users/u%02d.py' % k] = body
+    files['users/__init__.py'] = ''
+    b = world.Buffer()
+    b.add('def target(pa, pb=None):')
+    b.add('    pa.x', [('infer', '    pa', None), ('complete', 'pa.', None), ('goto', '    pa', None)])
+    b.add('    return pa')
+    b.add('')
+    b.add('')
+    b.add('local = target(2j)', [('get_references', 'targ', None), ('get_references', 'targ', {'scope': 'file'}),
+                                 ('infer', 'loca', None), ('goto', 'targ', None)])
+    b.add('local.x', [('complete', 'local.', None)])
+    probes = list(b.probes)
+    probes.append({'m': 'rename_diff', 'l': 1, 'c': 5, 'new': 'target_renamed'})
+    probes.append({'m': 'search', 'q': 'target'})
+    return b.text, probes
+
+
 def gen_syspath_buffer(rng, files):
     """a project module that modifies sys.path (statically visible), another module that is
     only importable through the added directory: what one module's sys.path edits do must not
@@ -291,17 +320,27 @@ def gen_case(seed, tier, i):
     # make ALT / multi shapes more likely
     init = [{'op': 'fs', 'kind': 'write', 'path': p, 'content': c, 'mt': MT0} for p, c in sorted(w.files.items())]
     family = rng.random()
-    if family < 0.2:
+    force_pathed = False
+    if family < 0.15:
         text, probes = gen_many_calls_buffer(rng, list(w.mods))
-    elif family < 0.35:
+    elif family < 0.28:
         text, probes = gen_dynamic_params_buffer(rng, list(w.mods))
-    elif family < 0.45:
+    elif family < 0.36:
         extra_files = {}
         text, probes = gen_syspath_buffer(rng, extra_files)
         init += [{'op': 'fs', 'kind': 'write', 'path': p, 'content': c, 'mt': MT0} for p, c in sorted(extra_files.items())]
-    elif family < 0.57:
+    elif family < 0.42:
+        extra_files = {}
+        text, probes = gen_many_files_buffer(rng, extra_files)
+        init += [{'op': 'fs', 'kind': 'write', 'path': p, 'content': c, 'mt': MT0} for p, c in sorted(extra_files.items())]
+        force_pathed = True
+    elif family < 0.47:
         text, probes = gen_all_methods_buffer(rng, list(w.mods))
-    elif family < 0.8:
+    elif family < 0.57 and world.corpus_slice(driver.rng_for(seed, 'C16', 'corpus-available'))[0]:
+        from simkit.props import c08
+        cname, text = world.corpus_slice(rng)
+        probes = [p for p in c08.sample_probes(rng, text, 24) if p['m'] not in ('get_syntax_errors',)]
+    elif family < 0.86:
         text, probes = gen_multi_buffer(rng, list(w.mods))
     else:
         b = world.gen_probe_buffer(rng, list(w.mods), max_probes=7)
@@ -335,7 +374,7 @@ def gen_case(seed, tier, i):
     rng.shuffle(idxs)
     chosen = idxs[:min(8, len(idxs))]
     sched = []
-    if family < 0.57:
+    if family < 0.47:
         sched = list(chosen)        # every probe once (in shuffled order), then repetitions
     for _ in range(rng.randint(8, 16 if tier == 'quick' else 24)):
         sched.append(rng.choice(chosen))
@@ -345,13 +384,15 @@ def gen_case(seed, tier, i):
               for _ in range(nf)]
     # queries that flip temporary switches while they run are the interesting ones to fail
     ref_pos = [k for k, idx in enumerate(sched) if probes[idx]['m'] in ('get_references', 'rename_diff', 'search')]
+    if force_pathed:
+        ref_pos = []
     if ref_pos and rng.random() < 0.7:
         faults[0]['pos'] = rng.choice(ref_pos)
         faults[0]['frac'] = rng.choice([0.0, 0.0, rng.random()])
     return {'id': 'c16-%d' % i, 'init': init, 'text': text, 'probes': probes, 'configs': configs,
             'project_ops': project_ops,
             'schedule': sched, 'sched_config': rng.randrange(len(configs)), 'faults': faults,
-            'pathed': rng.random() < 0.5}
+            'pathed': (rng.random() < 0.5) or force_pathed}
 
 
 # ---------------------------------------------------------------------------
